@@ -423,6 +423,10 @@ def rationalize(f):
     c = f.limit_denominator(4096)
     if c != f and float(c) == float(f):
         return c
+    for k in (4, 5, 6):             # short decimal literals (0.6417)
+        c = Fraction(round(f * 10 ** k), 10 ** k)
+        if float(c) == float(f):
+            return c
     return f
 
 
